@@ -536,9 +536,11 @@ impl Prioritize {
                 return Ok(BufferStatus::CodecFull);
             }
 
+            let mut opened = false;
             if let Some(mut stream) = self.pop_pending_open(store, counts) {
                 self.pending_send.push_front(&mut stream);
                 self.try_assign_capacity(&mut stream);
+                opened = true;
             }
 
             match self.pop_frame(buffer, store, max_frame_len, counts) {
@@ -556,6 +558,12 @@ impl Prioritize {
                     // before accepting another frame so that slot is not
                     // overwritten.
                     self.reclaim_frame(buffer, store, dst);
+                }
+                None if opened => {
+                    // The stream taken from `pending_open` had nothing left to
+                    // send (it was reset by the peer while it waited) and has
+                    // given its slot back: the next one may be opened now.
+                    continue;
                 }
                 None => {
                     return Ok(BufferStatus::Complete);
